@@ -10,6 +10,7 @@ structure St where
   now : Nat := 0
   t0 : Nat := 0
   hist : List (Nat × Bucket) := []            -- spec side: recorded events
+  nodes : Array (Arr Bucket × Nat × Nat × Nat) := #[]   -- BaseStatNode: own array, (sc, Iv), spec: history offset
   mono : Bool := true                          -- spec side: time never went backwards
 
 def qps (sum Iv : Nat) : Float := sum.toFloat / (Iv.toFloat / 1000.0)
@@ -22,11 +23,36 @@ def showBucketItem (p : Nat × Bucket) : String :=
 /-- canonical form of an item list: sorted by second, all-zero items dropped (a second whose buckets
     are all empty may or may not have a slot in the array; the property does not speak about it) -/
 def sortItems (xs : List (Nat × Bucket)) : List (Nat × Bucket) :=
-  ((xs.filter fun p => p.2 ≠ 0).toArray.qsort fun a b => a.1 < b.1).toList
+  ((xs.filter fun p => !(p.2.pass == 0 && p.2.block == 0 && p.2.error == 0 && p.2.complete == 0 && p.2.rt == 0 && p.2.mc == 0)).toArray.qsort fun a b => a.1 < b.1).toList
 
 def record (spec : Bool) (s : St) (x : Bucket) : St :=
   if spec then { s with hist := s.hist ++ [(s.now, x)] }
-  else { s with a := (addAt s.a s.now x).1 }
+  else { s with a := (addAt s.a s.now x).1,
+                nodes := s.nodes.map fun (a, r) => ((addAt a s.now x).1, r) }
+
+/-- the getters shared by a `SlidingWindowMetric` view and a `BaseStatNode`, given the window payload
+    at a time (`wsum`), the view geometry and the per-bucket maximum -/
+def getter (wsum : Nat → Bucket) (maxb : Ev → Nat) (now sc Iv : Nat) (prevOk : Bool) (node : Bool)
+    (rest : List String) : Option String :=
+  let Lv := Iv / sc
+  match rest with
+  | ["sum", ev] => (Ev.ofString? ev).map fun ev => toString ((wsum now).get ev)
+  | ["qps", ev] => (Ev.ofString? ev).map fun ev => fbits (qps ((wsum now).get ev) Iv)
+  | ["prevqps", ev] => (Ev.ofString? ev).map fun ev =>
+      -- time 0 is "no time" in this library (`now <= 0` guards): a previous-window read landing on it is outside the domain
+      if !prevOk then "?" else
+      let v := if Lv ≤ now then (wsum (now - Lv)).get ev else 0
+      fbits (qps v Iv)
+  | ["maxbucket", ev] => (Ev.ofString? ev).map fun ev => toString (maxb ev)
+  | ["maxavg", ev] => (Ev.ofString? ev).map fun ev =>
+      fbits ((maxb ev).toFloat * sc.toFloat / Iv.toFloat * 1000.0)
+  | ["minrt"] => some (toString (max 1 (wsum now).minRt))
+  | ["maxconc"] => some (toString (wsum now).mc)
+  | ["avgrt"] =>
+      let b := wsum now
+      if node then some (if b.complete = 0 then "0" else toString (b.rt / b.complete))
+      else some (fbits (b.rt.toFloat / b.complete.toFloat))
+  | _ => none
 
 /-- reference value of a window `[lo,hi]` of bucket starts -/
 def refB (s : St) (lo hi : Nat) : Bucket := refW s.a.L s.hist lo hi
@@ -60,47 +86,52 @@ def step (spec : Bool) (s : St) (ts : List String) (_ : String) : St × Option S
       | some k => match s.views[k]? with
         | none => (s, some "bad-op")
         | some (sc, Iv) =>
-          let Lv := Iv / sc
-          -- spec side: the window sum from the history; model side: from the array
+          if spec && !s.mono then (s, some "?") else
           let wsum (now : Nat) : Bucket :=
             if spec then (let w := win s Iv now; refB s w.1 w.2) else viewSum s.a Iv now
+          let maxb (ev : Ev) : Nat :=
+            if spec then
+              let w := win s Iv s.now
+              let starts := (List.range (Iv / s.a.L)).filterMap fun i =>
+                if i * s.a.L ≤ w.2 then some (w.2 - i * s.a.L) else none
+              ((starts.filter fun b => decide (w.1 ≤ b)).map fun b => (refB s b b).get ev).foldl max 0
+            else vMaxBucket s.a Iv s.now ev
+          -- previous-window reads are only claimed when the array still has a slot for them
+          let prevOk := !spec || (decide (Iv + Iv / sc ≤ s.a.n * s.a.L) && decide (s.now ≠ Iv / sc))
+          (s, some ((getter wsum maxb s.now sc Iv prevOk false rest).getD "bad-op"))
+  | ["node", sc, Iv] => match sc.toNat?, Iv.toNat? with
+      | some sc, some Iv =>
+        if validView sc Iv s.a.n (s.a.n * s.a.L) ≠ 0 then (s, some "bad-op") else
+        let a : Arr Bucket := if spec then { n := s.a.n, L := s.a.L, slots := [] } else mk s.a.n s.a.L s.now
+        ({ s with nodes := s.nodes.push (a, sc, Iv, s.hist.length) }, none)
+      | _, _ => (s, some "bad-op")
+  | "nread" :: k :: rest => match k.toNat? with
+      | none => (s, some "bad-op")
+      | some k => match s.nodes[k]? with
+        | none => (s, some "bad-op")
+        | some (a, sc, Iv, off) =>
           if spec && !s.mono then (s, some "?") else
-          match rest with
-          | ["sum", ev] => match Ev.ofString? ev with
-              | some ev => (s, some (toString ((wsum s.now).get ev)))
-              | none => (s, some "bad-op")
-          | ["qps", ev] => match Ev.ofString? ev with
-              | some ev => (s, some (fbits (qps ((wsum s.now).get ev) Iv)))
-              | none => (s, some "bad-op")
-          | ["prevqps", ev] => match Ev.ofString? ev with
-              | some ev =>
-                -- previous-window reads are only claimed when the array still has a slot for them
-                if spec && !(decide (Iv + Lv ≤ s.a.n * s.a.L)) then (s, some "?") else
-                let v := if Lv ≤ s.now then (wsum (s.now - Lv)).get ev else 0
-                (s, some (fbits (qps v Iv)))
-              | none => (s, some "bad-op")
-          | ["maxbucket", ev] => match Ev.ofString? ev with
-              | some ev =>
-                if spec then
-                  let w := win s Iv s.now
-                  let starts := (List.range (Iv / s.a.L)).filterMap fun i =>
-                    if i * s.a.L ≤ w.2 then some (w.2 - i * s.a.L) else none
-                  let starts := starts.filter fun b => decide (w.1 ≤ b)
-                  (s, some (toString ((starts.map fun b => (refB s b b).get ev).foldl max 0)))
-                else (s, some (toString (vMaxBucket s.a Iv s.now ev)))
-              | none => (s, some "bad-op")
-          | ["minrt"] => (s, some (toString (max 1 (wsum s.now).minRt)))
-          | ["maxconc"] => (s, some (toString (wsum s.now).mc))
-          | ["avgrt"] =>
-              let b := wsum s.now
-              (s, some (fbits (b.rt.toFloat / b.complete.toFloat)))
-          | _ => (s, some "bad-op")
+          let h := s.hist.drop off
+          let refN (lo hi : Nat) : Bucket := refW s.a.L h lo hi
+          let wsum (now : Nat) : Bucket :=
+            if spec then (let w := win s Iv now; refN w.1 w.2) else viewSum a Iv now
+          let maxb (ev : Ev) : Nat :=
+            if spec then
+              let w := win s Iv s.now
+              let starts := (List.range (Iv / s.a.L)).filterMap fun i =>
+                if i * s.a.L ≤ w.2 then some (w.2 - i * s.a.L) else none
+              ((starts.filter fun b => decide (w.1 ≤ b)).map fun b => (refN b b).get ev).foldl max 0
+            else vMaxBucket a Iv s.now ev
+          let prevOk := !spec || (decide (Iv + Iv / sc ≤ s.a.n * s.a.L) && decide (s.now ≠ Iv / sc))
+          (s, some ((getter wsum maxb s.now sc Iv prevOk true rest).getD "bad-op"))
   | ["count", ev] => match Ev.ofString? ev with
       | some ev =>
         if spec then
           if !s.mono then (s, some "?") else
           if s.now = 0 then (s, some "0") else
           let e := cbs s.a.L s.now
+          -- the refresh performed by an array-level read is a recording of the empty payload
+          let s := { s with hist := s.hist ++ [(s.now, 0)] }
           (s, some (toString ((refB s (e + s.a.L - s.a.n * s.a.L) e).get ev)))
         else
           let (a', c) := aCount s.a s.now ev
@@ -110,17 +141,27 @@ def step (spec : Bool) (s : St) (ts : List String) (_ : String) : St × Option S
       | some lo, some hi =>
         if spec then
           if !s.mono then (s, some "?") else
-          -- buckets the array can still hold: starts in (cbs latest - n·L, cbs latest], not deprecated at `now`
+          if s.now = 0 then (s, some "[]") else
+          -- the array-wide aligned window ending at the current bucket, restricted by the caller's predicate
           let L := s.a.L
-          let latest := (s.hist.map (·.1)).foldl max s.t0
-          let e := cbs L latest
+          let e := cbs L s.now
+          let itemsOf (starts : List Nat) : String :=
+            let secs := (starts.map fun b => b - b % 1000).eraseDups
+            let items := secs.map fun sec =>
+              (sec, ((starts.filter fun b => b - b % 1000 = sec).map fun b => refB s b b).sum)
+            showList ((sortItems items).map showBucketItem)
           let starts := (List.range s.a.n).filterMap fun i => if i * L ≤ e then some (e - i * L) else none
-          let starts := (starts.filter fun b => decide (e < b + s.a.n * L)
-                          && !deprecated (s.a.n * L) s.now b && decide (lo ≤ b ∧ b ≤ hi) && decide (s.now ≠ 0)).eraseDups
-          let secs := (starts.map fun b => b - b % 1000).eraseDups
-          let items := secs.map fun sec =>
-            (sec, ((starts.filter fun b => b - b % 1000 = sec).map fun b => refB s b b).sum)
-          (s, some (showList ((sortItems items).map showBucketItem)))
+          let starts := starts.filter fun b => decide (lo ≤ b ∧ b ≤ hi)
+          let claimed := itemsOf starts
+          -- known finding `items-boundary-bucket`: `isBucketDeprecated` is strict (`now - ws > I`), so exactly on a
+          -- bucket boundary the bucket one whole interval old is still returned by a read that does not refresh,
+          -- unless the current bucket has already been touched (which recycles that slot)
+          let old := e - s.a.n * L
+          let touched := s.hist.any fun ev => cbs L ev.1 = e
+          if s.now % L = 0 && decide (s.a.n * L ≤ e) && !touched && decide (lo ≤ old ∧ old ≤ hi)
+              && itemsOf (old :: starts) != claimed then
+            (s, some ("?known:items-boundary-bucket:" ++ claimed))
+          else (s, some claimed)
         else
           (s, some (showList ((sortItems (secondItems s.a s.now lo hi)).map showBucketItem)))
       | _, _ => (s, some "bad-op")
